@@ -715,6 +715,11 @@ class ExternalTensor(TensorBase, _protocols.TensorProtocol):  # pylint: disable=
 
     @base_dir.setter
     def base_dir(self, value: str | os.PathLike) -> None:
+        if os.fspath(value) != os.fspath(self._base_dir):
+            # What is mapped belongs to the old location: drop it, so that the next read
+            # goes through the containment check against the new base directory
+            self._array = None
+            self.raw = None
         self._base_dir = value
 
     @property
